@@ -70,6 +70,12 @@ PROPS["C18"]["quick"]["classes"] = "Classes_C18_quick.cfg"
 PROPS["C18"]["thorough"]["classes"] = "Classes_C18_thorough.cfg"
 PROPS["C04"]["quick"]["classes"] = "Classes_C04_quick.cfg"
 PROPS["C04"]["thorough"]["classes"] = "Classes_C04_quick.cfg"
+for _p, _c in [("C08", "Classes_C08.cfg"), ("C12", "Classes_codec.cfg"), ("C13", "Classes_codec.cfg"), ("C14", "Classes_codec.cfg"), ("C10", "Classes_C10.cfg"),
+               ("C06", "Classes_C06.cfg"), ("C11", "Classes_C11.cfg"), ("C03", "Classes_C03.cfg")]:
+    PROPS[_p]["quick"]["classes"] = _c
+    PROPS[_p]["thorough"]["classes"] = _c
+PROPS["C01"]["thorough"]["classes"] = "Classes_C01.cfg"
+PROPS["C02"]["thorough"]["classes"] = "Classes_C01.cfg"
 
 # the foundations of every oracle: BigNat against native integers, the three rounding formulations against each other
 PROPS["C02"]["quick"]["models"] = PROPS["C02"]["quick"]["models"] + [("MC_Dec.tla", "MC_Dec_quick.cfg")]
